@@ -266,4 +266,772 @@ theorem parseLine_effect (p : KP) (line : Str) (p' : KP) (h : p.parseLine line =
         rw [getVar_of_find _ _ _ hf]
         exact setVariable_shape _ _ _ _ hs
 
+/-! ### the invariant: every table has the length that its count key gives -/
+
+theorem length_resizeList {α : Type} (l : List α) (n : Nat) (fill : α) : (resizeList l n fill).length = n := by
+  unfold resizeList
+  simp [List.length_take]
+  omega
+
+theorem getVar_setKey_ne (p : KP) (k k' : Str) (v : Var) (h : k' ≠ k) : getVar (p.setKey k v).kmap k' = getVar p.kmap k' :=
+  getVar_setEntry_ne _ _ _ _ h
+
+theorem getVar_setKey_eq (p : KP) (k : Str) (v : Var) (h : getVar p.kmap k ≠ .none) : getVar (p.setKey k v).kmap k = v :=
+  getVar_setEntry_eq _ _ _ (isSome_of_getVar _ _ h)
+
+theorem getVar_resizeKey_ne (p : KP) (k k' : Str) (n : Nat) (fill : Int) (h : k' ≠ k) :
+    getVar (p.resizeKey k n fill).kmap k' = getVar p.kmap k' :=
+  getVar_setEntry_ne _ _ _ _ h
+
+theorem getVar_resizeKey_eq (p : KP) (k : Str) (n : Nat) (fill : Int) (h : getVar p.kmap k ≠ .none) :
+    getVar (p.resizeKey k n fill).kmap k = resizeVar (getVar p.kmap k) n fill :=
+  getVar_setEntry_eq _ _ _ (isSome_of_getVar _ _ h)
+
+/-- `number of dimensions` and the tables it sizes (`first pixel offset (mm)` is empty until the key has been seen) -/
+def DimsInv (m : List Entry) : Prop :=
+  ∃ (d : Nat) (ms : List (List Int)) (lb : List Str) (ps fp : List Int),
+    getVar m kNumDims = .int d ∧ getVar m kMatrixSize = .vInts ms ∧ getVar m kLabels = .vAscii lb ∧
+    getVar m kPixelSizes = .vInt ps ∧ getVar m kFirstPixel = .vInt fp ∧
+    ms.length = d ∧ lb.length = d ∧ ps.length = d ∧ (fp.length = d ∨ (fp.length = 0 ∧ d = 2))
+
+/-- `number of time frames`, `number of image data types` and the tables they size (the per-frame tables are empty until
+    `number of time frames` has been seen) -/
+def FramesInv (m : List Entry) : Prop :=
+  ∃ (t k : Nat) (isf : List (List Int)) (off st du : List Int) (ds : List Str),
+    getVar m kNumFrames = .int t ∧ getVar m kNumTypes = .int k ∧ getVar m kScaling = .vInts isf ∧
+    getVar m kOffsets = .vInt off ∧ getVar m kStart = .vInt st ∧ getVar m kDuration = .vInt du ∧ getVar m kDescr = .vAscii ds ∧
+    isf.length = t * k ∧ off.length = t * k ∧ ds.length = k ∧
+    ((st.length = t ∧ du.length = t) ∨ (st.length = 0 ∧ du.length = 0 ∧ t = 1))
+
+def WindowsInv (m : List Entry) : Prop :=
+  ∃ (w : Nat) (lo up : List Int),
+    getVar m kNumWindows = .int w ∧ getVar m kLower = .vInt lo ∧ getVar m kUpper = .vInt up ∧ lo.length = w ∧ up.length = w
+
+def HdrInv (m : List Entry) : Prop := DimsInv m ∧ FramesInv m ∧ WindowsInv m
+
+/-- shapes of two variables agree: used key by key -/
+theorem shape_vInts (v : Var) (l : List (List Int)) (h : sameShape (.vInts l) v) : ∃ l', v = .vInts l' ∧ l'.length = l.length := by
+  cases v <;> simp [sameShape] at h
+  exact ⟨_, rfl, h.symm⟩
+
+theorem shape_vInt (v : Var) (l : List Int) (h : sameShape (.vInt l) v) : ∃ l', v = .vInt l' ∧ l'.length = l.length := by
+  cases v <;> simp [sameShape] at h
+  exact ⟨_, rfl, h.symm⟩
+
+theorem shape_vAscii (v : Var) (l : List Str) (h : sameShape (.vAscii l) v) : ∃ l', v = .vAscii l' ∧ l'.length = l.length := by
+  cases v <;> simp [sameShape] at h
+  exact ⟨_, rfl, h.symm⟩
+
+theorem shape_int (v : Var) (n : Int) (h : sameShape (.int n) v) : ∃ n', v = .int n' := by
+  cases v <;> simp [sameShape] at h
+  exact ⟨_, rfl⟩
+
+/-- the group of `number of dimensions` is kept by any change that keeps the count and the shapes of its tables -/
+theorem DimsInv_shape (m m' : List Entry) (h : DimsInv m) (hc : getVar m' kNumDims = getVar m kNumDims)
+    (hs : ∀ k, k = kMatrixSize ∨ k = kLabels ∨ k = kPixelSizes ∨ k = kFirstPixel → sameShape (getVar m k) (getVar m' k)) :
+    DimsInv m' := by
+  obtain ⟨d, ms, lb, ps, fp, h1, h2, h3, h4, h5, l2, l3, l4, l5⟩ := h
+  have s2 := hs kMatrixSize (Or.inl rfl); rw [h2] at s2
+  have s3 := hs kLabels (Or.inr (Or.inl rfl)); rw [h3] at s3
+  have s4 := hs kPixelSizes (Or.inr (Or.inr (Or.inl rfl))); rw [h4] at s4
+  have s5 := hs kFirstPixel (Or.inr (Or.inr (Or.inr rfl))); rw [h5] at s5
+  obtain ⟨ms', e2, n2⟩ := shape_vInts _ _ s2
+  obtain ⟨lb', e3, n3⟩ := shape_vAscii _ _ s3
+  obtain ⟨ps', e4, n4⟩ := shape_vInt _ _ s4
+  obtain ⟨fp', e5, n5⟩ := shape_vInt _ _ s5
+  refine ⟨d, ms', lb', ps', fp', by rw [hc, h1], e2, e3, e4, e5, by omega, by omega, by omega, ?_⟩
+  rcases l5 with l5 | ⟨l5, l6⟩
+  · left; omega
+  · right; exact ⟨by omega, l6⟩
+
+theorem FramesInv_shape (m m' : List Entry) (h : FramesInv m) (hc1 : getVar m' kNumFrames = getVar m kNumFrames)
+    (hc2 : getVar m' kNumTypes = getVar m kNumTypes)
+    (hs : ∀ k, k = kScaling ∨ k = kOffsets ∨ k = kStart ∨ k = kDuration ∨ k = kDescr → sameShape (getVar m k) (getVar m' k)) :
+    FramesInv m' := by
+  obtain ⟨t, k, isf, off, st, du, ds, h1, h2, h3, h4, h5, h6, h7, l3, l4, l7, l56⟩ := h
+  have s3 := hs kScaling (Or.inl rfl); rw [h3] at s3
+  have s4 := hs kOffsets (Or.inr (Or.inl rfl)); rw [h4] at s4
+  have s5 := hs kStart (Or.inr (Or.inr (Or.inl rfl))); rw [h5] at s5
+  have s6 := hs kDuration (Or.inr (Or.inr (Or.inr (Or.inl rfl)))); rw [h6] at s6
+  have s7 := hs kDescr (Or.inr (Or.inr (Or.inr (Or.inr rfl)))); rw [h7] at s7
+  obtain ⟨isf', e3, n3⟩ := shape_vInts _ _ s3
+  obtain ⟨off', e4, n4⟩ := shape_vInt _ _ s4
+  obtain ⟨st', e5, n5⟩ := shape_vInt _ _ s5
+  obtain ⟨du', e6, n6⟩ := shape_vInt _ _ s6
+  obtain ⟨ds', e7, n7⟩ := shape_vAscii _ _ s7
+  refine ⟨t, k, isf', off', st', du', ds', by rw [hc1, h1], by rw [hc2, h2], e3, e4, e5, e6, e7, by omega, by omega, by omega, ?_⟩
+  rcases l56 with ⟨a, b⟩ | ⟨a, b, c⟩
+  · left; exact ⟨by omega, by omega⟩
+  · right; exact ⟨by omega, by omega, c⟩
+
+theorem WindowsInv_shape (m m' : List Entry) (h : WindowsInv m) (hc : getVar m' kNumWindows = getVar m kNumWindows)
+    (hs : ∀ k, k = kLower ∨ k = kUpper → sameShape (getVar m k) (getVar m' k)) : WindowsInv m' := by
+  obtain ⟨w, lo, up, h1, h2, h3, l2, l3⟩ := h
+  have s2 := hs kLower (Or.inl rfl); rw [h2] at s2
+  have s3 := hs kUpper (Or.inr rfl); rw [h3] at s3
+  obtain ⟨lo', e2, n2⟩ := shape_vInt _ _ s2
+  obtain ⟨up', e3, n3⟩ := shape_vInt _ _ s3
+  exact ⟨w, lo', up', by rw [hc, h1], e2, e3, by omega, by omega⟩
+
+/-- what `parseLine` does, key by key: the variable of the keyword of the line keeps its shape, all others are untouched -/
+theorem parseLine_vars (p : KP) (line : Str) (p' : KP) (h : p.parseLine line = some p') :
+    (∀ k, sameShape (getVar p.kmap k) (getVar p'.kmap k)) ∧ (∀ k, k ≠ p.keywordOf line → getVar p'.kmap k = getVar p.kmap k) := by
+  rcases parseLine_effect p line p' h with e | ⟨v, hs, hp, e⟩
+  · rw [e]; exact ⟨fun k => sameShape_refl _, fun k _ => rfl⟩
+  · rw [e]
+    refine ⟨fun k => ?_, fun k hk => getVar_setEntry_ne _ _ _ _ hk⟩
+    by_cases hk : k = p.keywordOf line
+    · subst hk; rw [getVar_setEntry_eq _ _ _ hp]; exact hs
+    · rw [getVar_setEntry_ne _ _ _ _ hk]; exact sameShape_refl _
+
+/-! ### the call-backs -/
+
+def dimsUpd (p : KP) (n : Nat) : KP :=
+  (((p.resizeKey kLabels n).resizeKey kMatrixSize n).resizeKey kPixelSizes n 1).setKey kFirstPixel (.vInt (List.replicate n notSet))
+
+def framesUpd (p : KP) (nd t : Nat) : KP :=
+  (((p.setKey kScaling (resizeScaling (getVar p.kmap kScaling) nd)).resizeKey kOffsets nd).resizeKey kStart t).resizeKey kDuration t
+
+def typesUpd (p : KP) (nd k : Nat) : KP :=
+  ((p.setKey kScaling (resizeScaling (getVar p.kmap kScaling) nd)).resizeKey kOffsets nd).resizeKey kDescr k
+
+def windowsUpd (p : KP) (n : Nat) : KP := (p.resizeKey kUpper n (-1)).resizeKey kLower n (-1)
+
+theorem hdrCallback_dims (p : KP) :
+    hdrCallback kNumDims p = if getInt p.kmap kNumDims < 0 then none else some (dimsUpd p (getInt p.kmap kNumDims).toNat) := by
+  simp [hdrCallback, dimsUpd]
+
+theorem hdrCallback_frames (p : KP) :
+    hdrCallback kNumFrames p =
+      if getInt p.kmap kNumFrames * getInt p.kmap kNumTypes < 0 || getInt p.kmap kNumFrames < 0 then none
+      else some (framesUpd p (getInt p.kmap kNumFrames * getInt p.kmap kNumTypes).toNat (getInt p.kmap kNumFrames).toNat) := by
+  have h1 : (kNumFrames == kNumDims) = false := by decide
+  simp [hdrCallback, framesUpd, h1]
+
+theorem hdrCallback_types (p : KP) :
+    hdrCallback kNumTypes p =
+      if getInt p.kmap kNumFrames * getInt p.kmap kNumTypes < 0 || getInt p.kmap kNumTypes < 0 then none
+      else some (typesUpd p (getInt p.kmap kNumFrames * getInt p.kmap kNumTypes).toNat (getInt p.kmap kNumTypes).toNat) := by
+  have h1 : (kNumTypes == kNumDims) = false := by decide
+  have h2 : (kNumTypes == kNumFrames) = false := by decide
+  simp [hdrCallback, typesUpd, h1, h2]
+
+theorem hdrCallback_windows (p : KP) :
+    hdrCallback kNumWindows p = if getInt p.kmap kNumWindows < 0 then none else some (windowsUpd p (getInt p.kmap kNumWindows).toNat) := by
+  have h1 : (kNumWindows == kNumDims) = false := by decide
+  have h2 : (kNumWindows == kNumFrames) = false := by decide
+  have h3 : (kNumWindows == kNumTypes) = false := by decide
+  simp [hdrCallback, windowsUpd, h1, h2, h3]
+
+/-- any other keyword: the members of the three groups are not touched (`type of data` only registers keys) -/
+theorem hdrCallback_other (kw : Str) (p p' : KP) (h1 : kw ≠ kNumDims) (h2 : kw ≠ kNumFrames) (h3 : kw ≠ kNumTypes) (h4 : kw ≠ kNumWindows)
+    (h : hdrCallback kw p = some p') : p' = p ∨ p' = p.setKey kPetKeysRegistered (.bool true) := by
+  have b1 : (kw == kNumDims) = false := by simpa using h1
+  have b2 : (kw == kNumFrames) = false := by simpa using h2
+  have b3 : (kw == kNumTypes) = false := by simpa using h3
+  have b4 : (kw == kNumWindows) = false := by simpa using h4
+  unfold hdrCallback at h
+  simp only [b1, b2, b3, b4, Bool.false_eq_true, if_false] at h
+  split at h
+  · split at h
+    · split at h
+      · cases h
+      · split at h
+        · right; cases h; rfl
+        · left; cases h; rfl
+    · left; cases h; rfl
+  · left; cases h; rfl
+
+theorem getVar_dimsUpd_ne (p : KP) (n : Nat) (k : Str) (h1 : k ≠ kLabels) (h2 : k ≠ kMatrixSize) (h3 : k ≠ kPixelSizes)
+    (h4 : k ≠ kFirstPixel) : getVar (dimsUpd p n).kmap k = getVar p.kmap k := by
+  unfold dimsUpd
+  rw [getVar_setKey_ne _ _ _ _ h4, getVar_resizeKey_ne _ _ _ _ _ h3, getVar_resizeKey_ne _ _ _ _ _ h2, getVar_resizeKey_ne _ _ _ _ _ h1]
+
+theorem getVar_framesUpd_ne (p : KP) (nd t : Nat) (k : Str) (h1 : k ≠ kScaling) (h2 : k ≠ kOffsets) (h3 : k ≠ kStart)
+    (h4 : k ≠ kDuration) : getVar (framesUpd p nd t).kmap k = getVar p.kmap k := by
+  unfold framesUpd
+  rw [getVar_resizeKey_ne _ _ _ _ _ h4, getVar_resizeKey_ne _ _ _ _ _ h3, getVar_resizeKey_ne _ _ _ _ _ h2, getVar_setKey_ne _ _ _ _ h1]
+
+theorem getVar_typesUpd_ne (p : KP) (nd kk : Nat) (k : Str) (h1 : k ≠ kScaling) (h2 : k ≠ kOffsets) (h3 : k ≠ kDescr) :
+    getVar (typesUpd p nd kk).kmap k = getVar p.kmap k := by
+  unfold typesUpd
+  rw [getVar_resizeKey_ne _ _ _ _ _ h3, getVar_resizeKey_ne _ _ _ _ _ h2, getVar_setKey_ne _ _ _ _ h1]
+
+theorem getVar_windowsUpd_ne (p : KP) (n : Nat) (k : Str) (h1 : k ≠ kUpper) (h2 : k ≠ kLower) :
+    getVar (windowsUpd p n).kmap k = getVar p.kmap k := by
+  unfold windowsUpd
+  rw [getVar_resizeKey_ne _ _ _ _ _ h2, getVar_resizeKey_ne _ _ _ _ _ h1]
+
+theorem getInt_of (m : List Entry) (k : Str) (n : Int) (h : getVar m k = .int n) : getInt m k = n := by
+  unfold getInt; rw [h]
+
+/-- members outside the group of `number of dimensions` after its call-back -/
+theorem dims_other (p p1 : KP) (n : Nat) (hne : ∀ k, k ≠ kNumDims → getVar p1.kmap k = getVar p.kmap k) (k : Str)
+    (hk : k ≠ kNumDims ∧ k ≠ kLabels ∧ k ≠ kMatrixSize ∧ k ≠ kPixelSizes ∧ k ≠ kFirstPixel) :
+    getVar (dimsUpd p1 n).kmap k = getVar p.kmap k := by
+  rw [getVar_dimsUpd_ne _ _ _ hk.2.1 hk.2.2.1 hk.2.2.2.1 hk.2.2.2.2, hne _ hk.1]
+
+theorem frames_other (p p1 : KP) (nd t : Nat) (hne : ∀ k, k ≠ kNumFrames → getVar p1.kmap k = getVar p.kmap k) (k : Str)
+    (hk : k ≠ kNumFrames ∧ k ≠ kScaling ∧ k ≠ kOffsets ∧ k ≠ kStart ∧ k ≠ kDuration) :
+    getVar (framesUpd p1 nd t).kmap k = getVar p.kmap k := by
+  rw [getVar_framesUpd_ne _ _ _ _ hk.2.1 hk.2.2.1 hk.2.2.2.1 hk.2.2.2.2, hne _ hk.1]
+
+theorem types_other (p p1 : KP) (nd kk : Nat) (hne : ∀ k, k ≠ kNumTypes → getVar p1.kmap k = getVar p.kmap k) (k : Str)
+    (hk : k ≠ kNumTypes ∧ k ≠ kScaling ∧ k ≠ kOffsets ∧ k ≠ kDescr) :
+    getVar (typesUpd p1 nd kk).kmap k = getVar p.kmap k := by
+  rw [getVar_typesUpd_ne _ _ _ _ hk.2.1 hk.2.2.1 hk.2.2.2, hne _ hk.1]
+
+theorem windows_other (p p1 : KP) (n : Nat) (hne : ∀ k, k ≠ kNumWindows → getVar p1.kmap k = getVar p.kmap k) (k : Str)
+    (hk : k ≠ kNumWindows ∧ k ≠ kUpper ∧ k ≠ kLower) :
+    getVar (windowsUpd p1 n).kmap k = getVar p.kmap k := by
+  rw [getVar_windowsUpd_ne _ _ _ hk.2.1 hk.2.2, hne _ hk.1]
+
+theorem resizeScaling_vInts (l : List (List Int)) (n : Nat) :
+    resizeScaling (.vInts l) n = .vInts ((resizeList l n []).map fun x => resizeList x 1 1) := rfl
+
+/-- the call-back of `number of dimensions` -/
+theorem dims_step (p p1 p' : KP) (hi : HdrInv p.kmap) (hsh : ∀ k, sameShape (getVar p.kmap k) (getVar p1.kmap k))
+    (hne : ∀ k, k ≠ kNumDims → getVar p1.kmap k = getVar p.kmap k) (h : hdrCallback kNumDims p1 = some p') : HdrInv p'.kmap := by
+  obtain ⟨⟨d, ms, lb, ps, fp, e1, e2, e3, e4, e5, l2, l3, l4, l5⟩, hf, hw⟩ := hi
+  have s1 := hsh kNumDims; rw [e1] at s1
+  obtain ⟨n, en⟩ := shape_int _ _ s1
+  rw [hdrCallback_dims, getInt_of _ _ _ en] at h
+  by_cases hn : n < 0
+  · simp [hn] at h
+  · simp only [hn, if_false, Option.some.injEq] at h
+    subst h
+    have hnn : ((n.toNat : Nat) : Int) = n := Int.toNat_of_nonneg (by omega)
+    have f2 : getVar p1.kmap kMatrixSize = .vInts ms := by rw [hne _ (by decide), e2]
+    have f3 : getVar p1.kmap kLabels = .vAscii lb := by rw [hne _ (by decide), e3]
+    have f4 : getVar p1.kmap kPixelSizes = .vInt ps := by rw [hne _ (by decide), e4]
+    have f5 : getVar p1.kmap kFirstPixel = .vInt fp := by rw [hne _ (by decide), e5]
+    refine ⟨⟨n.toNat, resizeList ms n.toNat [], resizeList lb n.toNat [], resizeList ps n.toNat 1, List.replicate n.toNat notSet,
+      ?_, ?_, ?_, ?_, ?_, length_resizeList _ _ _, length_resizeList _ _ _, length_resizeList _ _ _, Or.inl (by simp)⟩, ?_, ?_⟩
+    · rw [getVar_dimsUpd_ne _ _ _ (by decide) (by decide) (by decide) (by decide), en, hnn]
+    · unfold dimsUpd
+      rw [getVar_setKey_ne _ _ _ _ (by decide), getVar_resizeKey_ne _ _ _ _ _ (by decide),
+        getVar_resizeKey_eq _ _ _ _ (by rw [getVar_resizeKey_ne _ _ _ _ _ (by decide), f2]; simp),
+        getVar_resizeKey_ne _ _ _ _ _ (by decide), f2]
+      rfl
+    · unfold dimsUpd
+      rw [getVar_setKey_ne _ _ _ _ (by decide), getVar_resizeKey_ne _ _ _ _ _ (by decide), getVar_resizeKey_ne _ _ _ _ _ (by decide),
+        getVar_resizeKey_eq _ _ _ _ (by rw [f3]; simp), f3]
+      rfl
+    · unfold dimsUpd
+      rw [getVar_setKey_ne _ _ _ _ (by decide),
+        getVar_resizeKey_eq _ _ _ _ (by rw [getVar_resizeKey_ne _ _ _ _ _ (by decide), getVar_resizeKey_ne _ _ _ _ _ (by decide), f4]; simp),
+        getVar_resizeKey_ne _ _ _ _ _ (by decide), getVar_resizeKey_ne _ _ _ _ _ (by decide), f4]
+      rfl
+    · unfold dimsUpd
+      rw [getVar_setKey_eq _ _ _ (by
+        rw [getVar_resizeKey_ne _ _ _ _ _ (by decide), getVar_resizeKey_ne _ _ _ _ _ (by decide), getVar_resizeKey_ne _ _ _ _ _ (by decide), f5]
+        simp)]
+    · refine FramesInv_shape p.kmap _ hf (dims_other p p1 _ hne _ (by decide)) (dims_other p p1 _ hne _ (by decide)) ?_
+      intro k hk
+      rcases hk with rfl | rfl | rfl | rfl | rfl <;> rw [dims_other p p1 _ hne _ (by decide)] <;> exact sameShape_refl _
+    · refine WindowsInv_shape p.kmap _ hw (dims_other p p1 _ hne _ (by decide)) ?_
+      intro k hk
+      rcases hk with rfl | rfl <;> rw [dims_other p p1 _ hne _ (by decide)] <;> exact sameShape_refl _
+
+theorem toNat_mul_cast (a k : Nat) : ((a : Int) * (k : Int)).toNat = a * k := by
+  rw [← Int.natCast_mul]; exact Int.toNat_natCast _
+
+/-- the call-back of `number of time frames` -/
+theorem frames_step (p p1 p' : KP) (hi : HdrInv p.kmap) (hsh : ∀ k, sameShape (getVar p.kmap k) (getVar p1.kmap k))
+    (hne : ∀ k, k ≠ kNumFrames → getVar p1.kmap k = getVar p.kmap k) (h : hdrCallback kNumFrames p1 = some p') : HdrInv p'.kmap := by
+  obtain ⟨hd, ⟨t, k, isf, off, st, du, ds, e1, e2, e3, e4, e5, e6, e7, l3, l4, l7, l56⟩, hw⟩ := hi
+  have s1 := hsh kNumFrames; rw [e1] at s1
+  obtain ⟨n, en⟩ := shape_int _ _ s1
+  have f2 : getVar p1.kmap kNumTypes = .int k := by rw [hne _ (by decide), e2]
+  rw [hdrCallback_frames, getInt_of _ _ _ en, getInt_of _ _ _ f2] at h
+  by_cases hn : n < 0
+  · simp [hn] at h
+  · obtain ⟨a, rfl⟩ : ∃ a : Nat, n = a := ⟨n.toNat, (Int.toNat_of_nonneg (by omega)).symm⟩
+    have hprod : ¬ ((a : Int) * (k : Int) < 0) := by
+      have := Int.mul_nonneg (Int.natCast_nonneg a) (Int.natCast_nonneg k)
+      omega
+    simp only [hn, hprod, Bool.or_self, decide_false, Bool.false_eq_true, if_false, Option.some.injEq, toNat_mul_cast, Int.toNat_natCast] at h
+    subst h
+    have f3 : getVar p1.kmap kScaling = .vInts isf := by rw [hne _ (by decide), e3]
+    have f4 : getVar p1.kmap kOffsets = .vInt off := by rw [hne _ (by decide), e4]
+    have f5 : getVar p1.kmap kStart = .vInt st := by rw [hne _ (by decide), e5]
+    have f6 : getVar p1.kmap kDuration = .vInt du := by rw [hne _ (by decide), e6]
+    have f7 : getVar p1.kmap kDescr = .vAscii ds := by rw [hne _ (by decide), e7]
+    refine ⟨?_, ⟨a, k, (resizeList isf (a * k) []).map (fun x => resizeList x 1 1), resizeList off (a * k) 0, resizeList st a 0,
+      resizeList du a 0, ds, ?_, ?_, ?_, ?_, ?_, ?_, ?_, by simp [length_resizeList], length_resizeList _ _ _, l7,
+      Or.inl ⟨length_resizeList _ _ _, length_resizeList _ _ _⟩⟩, ?_⟩
+    · refine DimsInv_shape p.kmap _ hd (frames_other p p1 _ _ hne _ (by decide)) ?_
+      intro k hk
+      rcases hk with rfl | rfl | rfl | rfl <;> rw [frames_other p p1 _ _ hne _ (by decide)] <;> exact sameShape_refl _
+    · rw [getVar_framesUpd_ne _ _ _ _ (by decide) (by decide) (by decide) (by decide), en]
+    · rw [getVar_framesUpd_ne _ _ _ _ (by decide) (by decide) (by decide) (by decide), f2]
+    · unfold framesUpd
+      rw [getVar_resizeKey_ne _ _ _ _ _ (by decide), getVar_resizeKey_ne _ _ _ _ _ (by decide), getVar_resizeKey_ne _ _ _ _ _ (by decide),
+        getVar_setKey_eq _ _ _ (by rw [f3]; simp), f3]
+      rfl
+    · unfold framesUpd
+      rw [getVar_resizeKey_ne _ _ _ _ _ (by decide), getVar_resizeKey_ne _ _ _ _ _ (by decide),
+        getVar_resizeKey_eq _ _ _ _ (by rw [getVar_setKey_ne _ _ _ _ (by decide), f4]; simp), getVar_setKey_ne _ _ _ _ (by decide), f4]
+      rfl
+    · unfold framesUpd
+      rw [getVar_resizeKey_ne _ _ _ _ _ (by decide),
+        getVar_resizeKey_eq _ _ _ _ (by rw [getVar_resizeKey_ne _ _ _ _ _ (by decide), getVar_setKey_ne _ _ _ _ (by decide), f5]; simp),
+        getVar_resizeKey_ne _ _ _ _ _ (by decide), getVar_setKey_ne _ _ _ _ (by decide), f5]
+      rfl
+    · unfold framesUpd
+      rw [getVar_resizeKey_eq _ _ _ _ (by
+          rw [getVar_resizeKey_ne _ _ _ _ _ (by decide), getVar_resizeKey_ne _ _ _ _ _ (by decide), getVar_setKey_ne _ _ _ _ (by decide), f6]
+          simp),
+        getVar_resizeKey_ne _ _ _ _ _ (by decide), getVar_resizeKey_ne _ _ _ _ _ (by decide), getVar_setKey_ne _ _ _ _ (by decide), f6]
+      rfl
+    · rw [getVar_framesUpd_ne _ _ _ _ (by decide) (by decide) (by decide) (by decide), f7]
+    · refine WindowsInv_shape p.kmap _ hw (frames_other p p1 _ _ hne _ (by decide)) ?_
+      intro k hk
+      rcases hk with rfl | rfl <;> rw [frames_other p p1 _ _ hne _ (by decide)] <;> exact sameShape_refl _
+
+/-- the call-back of `number of image data types` -/
+theorem types_step (p p1 p' : KP) (hi : HdrInv p.kmap) (hsh : ∀ k, sameShape (getVar p.kmap k) (getVar p1.kmap k))
+    (hne : ∀ k, k ≠ kNumTypes → getVar p1.kmap k = getVar p.kmap k) (h : hdrCallback kNumTypes p1 = some p') : HdrInv p'.kmap := by
+  obtain ⟨hd, ⟨t, k, isf, off, st, du, ds, e1, e2, e3, e4, e5, e6, e7, l3, l4, l7, l56⟩, hw⟩ := hi
+  have s2 := hsh kNumTypes; rw [e2] at s2
+  obtain ⟨n, en⟩ := shape_int _ _ s2
+  have f1 : getVar p1.kmap kNumFrames = .int t := by rw [hne _ (by decide), e1]
+  rw [hdrCallback_types, getInt_of _ _ _ en, getInt_of _ _ _ f1] at h
+  by_cases hn : n < 0
+  · simp [hn] at h
+  · obtain ⟨a, rfl⟩ : ∃ a : Nat, n = a := ⟨n.toNat, (Int.toNat_of_nonneg (by omega)).symm⟩
+    have hprod : ¬ ((t : Int) * (a : Int) < 0) := by
+      have := Int.mul_nonneg (Int.natCast_nonneg t) (Int.natCast_nonneg a)
+      omega
+    simp only [hn, hprod, Bool.or_self, decide_false, Bool.false_eq_true, if_false, Option.some.injEq, toNat_mul_cast, Int.toNat_natCast] at h
+    subst h
+    have f3 : getVar p1.kmap kScaling = .vInts isf := by rw [hne _ (by decide), e3]
+    have f4 : getVar p1.kmap kOffsets = .vInt off := by rw [hne _ (by decide), e4]
+    have f5 : getVar p1.kmap kStart = .vInt st := by rw [hne _ (by decide), e5]
+    have f6 : getVar p1.kmap kDuration = .vInt du := by rw [hne _ (by decide), e6]
+    have f7 : getVar p1.kmap kDescr = .vAscii ds := by rw [hne _ (by decide), e7]
+    refine ⟨?_, ⟨t, a, (resizeList isf (t * a) []).map (fun x => resizeList x 1 1), resizeList off (t * a) 0, st, du,
+      resizeList ds a [], ?_, ?_, ?_, ?_, ?_, ?_, ?_, by simp [length_resizeList], length_resizeList _ _ _, length_resizeList _ _ _, l56⟩, ?_⟩
+    · refine DimsInv_shape p.kmap _ hd (types_other p p1 _ _ hne _ (by decide)) ?_
+      intro k hk
+      rcases hk with rfl | rfl | rfl | rfl <;> rw [types_other p p1 _ _ hne _ (by decide)] <;> exact sameShape_refl _
+    · rw [getVar_typesUpd_ne _ _ _ _ (by decide) (by decide) (by decide), f1]
+    · rw [getVar_typesUpd_ne _ _ _ _ (by decide) (by decide) (by decide), en]
+    · unfold typesUpd
+      rw [getVar_resizeKey_ne _ _ _ _ _ (by decide), getVar_resizeKey_ne _ _ _ _ _ (by decide),
+        getVar_setKey_eq _ _ _ (by rw [f3]; simp), f3]
+      rfl
+    · unfold typesUpd
+      rw [getVar_resizeKey_ne _ _ _ _ _ (by decide),
+        getVar_resizeKey_eq _ _ _ _ (by rw [getVar_setKey_ne _ _ _ _ (by decide), f4]; simp), getVar_setKey_ne _ _ _ _ (by decide), f4]
+      rfl
+    · rw [getVar_typesUpd_ne _ _ _ _ (by decide) (by decide) (by decide), f5]
+    · rw [getVar_typesUpd_ne _ _ _ _ (by decide) (by decide) (by decide), f6]
+    · unfold typesUpd
+      rw [getVar_resizeKey_eq _ _ _ _ (by
+          rw [getVar_resizeKey_ne _ _ _ _ _ (by decide), getVar_setKey_ne _ _ _ _ (by decide), f7]
+          simp),
+        getVar_resizeKey_ne _ _ _ _ _ (by decide), getVar_setKey_ne _ _ _ _ (by decide), f7]
+      rfl
+    · refine WindowsInv_shape p.kmap _ hw (types_other p p1 _ _ hne _ (by decide)) ?_
+      intro k hk
+      rcases hk with rfl | rfl <;> rw [types_other p p1 _ _ hne _ (by decide)] <;> exact sameShape_refl _
+
+/-- the call-back of `number of energy windows` -/
+theorem windows_step (p p1 p' : KP) (hi : HdrInv p.kmap) (hsh : ∀ k, sameShape (getVar p.kmap k) (getVar p1.kmap k))
+    (hne : ∀ k, k ≠ kNumWindows → getVar p1.kmap k = getVar p.kmap k) (h : hdrCallback kNumWindows p1 = some p') : HdrInv p'.kmap := by
+  obtain ⟨hd, hf, ⟨w, lo, up, e1, e2, e3, l2, l3⟩⟩ := hi
+  have s1 := hsh kNumWindows; rw [e1] at s1
+  obtain ⟨n, en⟩ := shape_int _ _ s1
+  rw [hdrCallback_windows, getInt_of _ _ _ en] at h
+  by_cases hn : n < 0
+  · simp [hn] at h
+  · simp only [hn, if_false, Option.some.injEq] at h
+    subst h
+    have hnn : ((n.toNat : Nat) : Int) = n := Int.toNat_of_nonneg (by omega)
+    have f2 : getVar p1.kmap kLower = .vInt lo := by rw [hne _ (by decide), e2]
+    have f3 : getVar p1.kmap kUpper = .vInt up := by rw [hne _ (by decide), e3]
+    refine ⟨?_, ?_, ⟨n.toNat, resizeList lo n.toNat (-1), resizeList up n.toNat (-1), ?_, ?_, ?_, length_resizeList _ _ _, length_resizeList _ _ _⟩⟩
+    · refine DimsInv_shape p.kmap _ hd (windows_other p p1 _ hne _ (by decide)) ?_
+      intro k hk
+      rcases hk with rfl | rfl | rfl | rfl <;> rw [windows_other p p1 _ hne _ (by decide)] <;> exact sameShape_refl _
+    · refine FramesInv_shape p.kmap _ hf (windows_other p p1 _ hne _ (by decide)) (windows_other p p1 _ hne _ (by decide)) ?_
+      intro k hk
+      rcases hk with rfl | rfl | rfl | rfl | rfl <;> rw [windows_other p p1 _ hne _ (by decide)] <;> exact sameShape_refl _
+    · rw [getVar_windowsUpd_ne _ _ _ (by decide) (by decide), en, hnn]
+    · unfold windowsUpd
+      rw [getVar_resizeKey_eq _ _ _ _ (by rw [getVar_resizeKey_ne _ _ _ _ _ (by decide), f2]; simp), getVar_resizeKey_ne _ _ _ _ _ (by decide), f2]
+      rfl
+    · unfold windowsUpd
+      rw [getVar_resizeKey_ne _ _ _ _ _ (by decide), getVar_resizeKey_eq _ _ _ _ (by rw [f3]; simp), f3]
+      rfl
+
+/-- a line whose keyword is not a count key: shapes and counts are kept -/
+theorem other_step (p p1 p' : KP) (kw : Str) (hi : HdrInv p.kmap) (hsh : ∀ k, sameShape (getVar p.kmap k) (getVar p1.kmap k))
+    (hne : ∀ k, k ≠ kw → getVar p1.kmap k = getVar p.kmap k)
+    (h1 : kw ≠ kNumDims) (h2 : kw ≠ kNumFrames) (h3 : kw ≠ kNumTypes) (h4 : kw ≠ kNumWindows)
+    (h : hdrCallback kw p1 = some p') : HdrInv p'.kmap := by
+  -- the call-back sets at most the key-registration flag
+  have hv : ∀ k, k ≠ kPetKeysRegistered → getVar p'.kmap k = getVar p1.kmap k := by
+    intro k hk
+    rcases hdrCallback_other kw p1 p' h1 h2 h3 h4 h with e | e
+    · rw [e]
+    · rw [e, getVar_setKey_ne _ _ _ _ hk]
+  obtain ⟨hd, hf, hw⟩ := hi
+  refine ⟨?_, ?_, ?_⟩
+  · refine DimsInv_shape p.kmap _ hd (by rw [hv _ (by decide), hne _ (Ne.symm h1)]) ?_
+    intro k hk
+    have : k ≠ kPetKeysRegistered := by rcases hk with rfl | rfl | rfl | rfl <;> decide
+    rw [hv _ this]; exact hsh k
+  · refine FramesInv_shape p.kmap _ hf (by rw [hv _ (by decide), hne _ (Ne.symm h2)]) (by rw [hv _ (by decide), hne _ (Ne.symm h3)]) ?_
+    intro k hk
+    have : k ≠ kPetKeysRegistered := by rcases hk with rfl | rfl | rfl | rfl | rfl <;> decide
+    rw [hv _ this]; exact hsh k
+  · refine WindowsInv_shape p.kmap _ hw (by rw [hv _ (by decide), hne _ (Ne.symm h4)]) ?_
+    intro k hk
+    have : k ≠ kPetKeysRegistered := by rcases hk with rfl | rfl <;> decide
+    rw [hv _ this]; exact hsh k
+
+/-- **every line of every text keeps every table at the length its count key gives** -/
+theorem hdrLine_inv (p : KP) (line : Str) (p' : KP) (hi : HdrInv p.kmap) (h : hdrLine p line = some p') : HdrInv p'.kmap := by
+  unfold hdrLine at h
+  simp only at h
+  split at h
+  · cases h; exact hi
+  · cases hpl : p.parseLine line with
+    | none => rw [hpl] at h; cases h
+    | some p1 =>
+      rw [hpl] at h
+      simp only at h
+      obtain ⟨hsh, hne⟩ := parseLine_vars p line p1 hpl
+      by_cases c1 : p.keywordOf line = kNumDims
+      · rw [c1] at h hne; exact dims_step p p1 p' hi hsh hne h
+      · by_cases c2 : p.keywordOf line = kNumFrames
+        · rw [c2] at h hne; exact frames_step p p1 p' hi hsh hne h
+        · by_cases c3 : p.keywordOf line = kNumTypes
+          · rw [c3] at h hne; exact types_step p p1 p' hi hsh hne h
+          · by_cases c4 : p.keywordOf line = kNumWindows
+            · rw [c4] at h hne; exact windows_step p p1 p' hi hsh hne h
+            · exact other_step p p1 p' _ hi hsh hne c1 c2 c3 c4 h
+
+/-- the members of a freshly constructed image header, spelled out -/
+def imageKmap0 : List Entry :=
+  [⟨"interfile".toList, .start, .none⟩, ⟨kImagingModality, .set, .ascii []⟩, ⟨kVersionOfKeys, .set, .ascii []⟩,
+   ⟨"end of interfile".toList, .stop, .none⟩, ⟨kDataFile, .set, .ascii []⟩, ⟨"general data".toList, .ignore, .none⟩,
+   ⟨"general image data".toList, .ignore, .none⟩,
+   ⟨kTypeOfData, .set, .choice ["Static".toList, "Dynamic".toList, "Tomographic".toList, "Curve".toList, "ROI".toList,
+                                "PET".toList, "Other".toList] 6⟩,
+   ⟨kByteOrder, .set, .choice ["LITTLEENDIAN".toList, "BIGENDIAN".toList] 1⟩,
+   ⟨kNumberFormat, .set, .choice ["bit".toList, "ascii".toList, "signed integer".toList, "unsigned integer".toList, "float".toList] 3⟩,
+   ⟨kBytesPerPixel, .set, .int (-1)⟩, ⟨kNumDims, .set, .int 2⟩, ⟨kMatrixSize, .set, .vInts [[], []]⟩, ⟨kLabels, .set, .vAscii [[], []]⟩,
+   ⟨kPixelSizes, .set, .vInt [1, 1]⟩, ⟨kNumFrames, .set, .int 1⟩, ⟨kStart, .set, .vInt []⟩, ⟨kDuration, .set, .vInt []⟩,
+   ⟨kScaling, .set, .vInts [[1]]⟩, ⟨kNumWindows, .set, .int 1⟩, ⟨kLower, .set, .vInt [-1]⟩, ⟨kUpper, .set, .vInt [-1]⟩,
+   ⟨kFirstPixel, .set, .vInt []⟩, ⟨kNumTypes, .set, .int 1⟩, ⟨kNesting, .set, .strs [[]]⟩, ⟨kDescr, .set, .vAscii [[]]⟩,
+   ⟨kPetType, .set, .choice ["Emission".toList, "Transmission".toList, "Blank".toList, "AttenuationCorrection".toList,
+                             "Normalisation".toList, "Image".toList] 5⟩,
+   ⟨kOffsets, .set, .vInt [0]⟩, ⟨kPetKeysRegistered, .ignore, .bool false⟩]
+
+set_option maxRecDepth 100000 in
+theorem imageHeader0_kmap : imageHeader0.kmap = imageKmap0 := by decide
+
+theorem hdrInv_init : HdrInv imageHeader0.kmap := by
+  rw [imageHeader0_kmap]
+  refine ⟨⟨2, [[], []], [[], []], [1, 1], [], ?_, ?_, ?_, ?_, ?_, rfl, rfl, rfl, Or.inr ⟨rfl, rfl⟩⟩,
+    ⟨1, 1, [[1]], [0], [], [], [[]], ?_, ?_, ?_, ?_, ?_, ?_, ?_, rfl, rfl, rfl, Or.inr ⟨rfl, rfl, rfl⟩⟩,
+    ⟨1, [-1], [-1], ?_, ?_, ?_, rfl, rfl⟩⟩ <;> decide
+
+/-- the members after `parse_header` of ANY text satisfy the invariant -/
+theorem hdrInv_parse (text : Str) : HdrInv (imageHeader0.parseWith hdrLine text).kp.kmap :=
+  parseWith_inv HdrInv hdrLine hdrLine_inv imageHeader0 text hdrInv_init
+
+/-! ### `post_processing` -/
+
+theorem scalingLoop_spec (nz : Int) : ∀ (n : Nat) (l : List (List Int)),
+    n ≤ l.length →
+      scalingLoop nz n l = some none ∨
+        ∃ r, scalingLoop nz n l = some (some r) ∧ r.length = l.length ∧ ∀ x ∈ r.take n, x.length = nz.toNat := by
+  intro n
+  induction n with
+  | zero => intro l _; right; exact ⟨l, rfl, rfl, by simp⟩
+  | succ n ih =>
+    intro l hl
+    cases l with
+    | nil => simp at hl
+    | cons x rest =>
+      have hl' : n ≤ rest.length := by simpa using hl
+      rw [scalingLoop]
+      by_cases h1 : (x.length == 1) = true
+      · simp only [h1, if_true]
+        rcases ih rest hl' with e | ⟨r, e, el, ex⟩
+        · left; rw [e]
+        · right
+          rw [e]
+          refine ⟨List.replicate nz.toNat (x.headD 0) :: r, rfl, by simp [el], ?_⟩
+          intro y hy
+          simp only [List.take_succ_cons, List.mem_cons] at hy
+          rcases hy with rfl | hy
+          · simp
+          · exact ex y hy
+      · simp only [h1, Bool.false_eq_true, if_false]
+        by_cases h2 : (x.length : Int) ≠ nz
+        · left; simp [h2]
+        · have h2' : (x.length : Int) = nz := by simpa using h2
+          simp only [h2, if_false]
+          rcases ih rest hl' with e | ⟨r, e, el, ex⟩
+          · left; rw [e]
+          · right
+            rw [e]
+            refine ⟨x :: r, rfl, by simp [el], ?_⟩
+            intro y hy
+            simp only [List.take_succ_cons, List.mem_cons] at hy
+            rcases hy with rfl | hy
+            · omega
+            · exact ex y hy
+
+/-- number of planes: first element of the last `matrix size` list -/
+def planes (ms : List (List Int)) : Int := (ms.getLast?.getD []).headD 0
+
+/-- what `post_processing` of the image header can answer for members that satisfy the invariant: it rejects, throws,
+    indexes `PET_data_type_values` with an index outside the list, or accepts with one scaling factor per plane for every
+    data set -/
+theorem imagePost_cases (q : KP) (hq : HdrInv q.kmap) :
+    imagePost q = .rejected ∨ imagePost q = .error ∨
+      (imagePost q = .oob ∧ ∃ vals i, getVar q.kmap kPetType = .choice vals i ∧ (i < 0 ∨ (vals.length : Int) ≤ i)) ∨
+      ∃ ms isf isf', getVar q.kmap kMatrixSize = .vInts ms ∧ getVar q.kmap kScaling = .vInts isf ∧ isf'.length = isf.length ∧
+        (∀ x ∈ isf', x.length = (planes ms).toNat) ∧ imagePost q = .ok (q.setKey kScaling (.vInts isf')) := by
+  obtain ⟨⟨d, ms, lb, ps, fp, d1, d2, d3, d4, d5, dl2, dl3, dl4, dl5⟩,
+    ⟨t, k, isf, off, st, du, ds, f1, f2, f3, f4, f5, f6, f7, fl3, fl4, fl7, fl56⟩, ⟨w, lo, up, w1, w2, w3, wl2, wl3⟩⟩ := hq
+  unfold imagePost
+  simp only [d2, d3, f3]
+  split
+  · next vals tIdx fvals fIdx ms' isf0 pvals pIdx labels e1 e2 e3 e4 e5 e6 =>
+    cases e3; cases e4; cases e6
+    by_cases c1 : tIdx < 0
+    · left; rw [if_pos c1]
+    rw [if_neg c1]
+    by_cases c2 : (fIdx < 0 || (fvals.length : Int) ≤ fIdx) = true
+    · left; rw [if_pos c2]
+    rw [if_neg c2]
+    by_cases c3 : (fIdx != 0 && decide (getInt q.kmap kBytesPerPixel ≤ 0)) = true
+    · left; rw [if_pos c3]
+    rw [if_neg c3]
+    by_cases c4 : ms.isEmpty = true
+    · left; rw [if_pos c4]
+    rw [if_neg c4]
+    by_cases c5 : (ms.any fun l => l.isEmpty || l.any fun x => decide (x ≤ 0)) = true
+    · left; rw [if_pos c5]
+    rw [if_neg c5]
+    rw [getInt_of _ _ _ f1, getInt_of _ _ _ f2]
+    by_cases c6 : (t : Int) * (k : Int) < 1
+    · left; rw [if_pos c6]
+    rw [if_neg c6]
+    have hlen : ((t : Int) * (k : Int)).toNat ≤ isf.length := by rw [toNat_mul_cast]; omega
+    rcases scalingLoop_spec (planes ms) _ isf hlen with e | ⟨r, e, el, ex⟩
+    · left; unfold planes at e; simp only [e]
+    · unfold planes at e
+      simp only [e]
+      have hall : ∀ x ∈ r, x.length = (planes ms).toNat := by
+        intro x hx
+        apply ex
+        rw [List.take_of_length_le (by rw [el, toNat_mul_cast]; omega)]
+        exact hx
+      -- energy windows
+      rw [getInt_of _ _ _ w1]
+      simp only [w2, w3, f5, f6]
+      by_cases c7 : ((w : Int) > 0 && (up.isEmpty || lo.isEmpty)) = true
+      · exfalso
+        simp at c7
+        obtain ⟨hw0, hor⟩ := c7
+        rcases hor with h' | h'
+        · rw [h'] at wl3; simp at wl3; omega
+        · rw [h'] at wl2; simp at wl2; omega
+      rw [if_neg c7]
+      by_cases c8 : st.length ≠ du.length
+      · right; left; rw [if_pos c8]
+      rw [if_neg c8]
+      by_cases c9 : (pIdx < 0 || (pvals.length : Int) ≤ pIdx) = true
+      · right; right; left
+        refine ⟨by rw [if_pos c9], pvals, pIdx, e5, ?_⟩
+        simpa using c9
+      rw [if_neg c9]
+      by_cases c10 : (pvals.getD pIdx.toNat [] != "Image".toList) = true
+      · left; rw [if_pos c10]
+      rw [if_neg c10]
+      rw [getInt_of _ _ _ d1]
+      by_cases c11 : ((d : Int) != 3) = true
+      · left; rw [if_pos c11]
+      rw [if_neg c11]
+      have hd3 : d = 3 := by
+        have : (d : Int) = 3 := by simpa using c11
+        omega
+      by_cases c12 : (decide (ms.length < 3) || decide (lb.length < 3)) = true
+      · exfalso
+        simp at c12
+        omega
+      rw [if_neg c12]
+      by_cases c13 : ((ms.take 3).any fun l => l.length != 1) = true
+      · left; rw [if_pos c13]
+      rw [if_neg c13]
+      by_cases c14 : (!(lb.headD []).isEmpty && (lb.take 3 != ["x".toList, "y".toList, "z".toList])) = true
+      · left; rw [if_pos c14]
+      rw [if_neg c14]
+      right; right; right
+      exact ⟨ms, isf, r, rfl, rfl, el, hall, rfl⟩
+  · left; rfl
+
+/-! ### the theorems about whole header texts -/
+
+theorem hdrInv_setScaling (q : KP) (hq : HdrInv q.kmap) (isf isf' : List (List Int)) (h3 : getVar q.kmap kScaling = .vInts isf)
+    (hl : isf'.length = isf.length) : HdrInv (q.setKey kScaling (.vInts isf')).kmap := by
+  obtain ⟨hd, hf, hw⟩ := hq
+  have hother : ∀ k, k ≠ kScaling → getVar (q.setKey kScaling (.vInts isf')).kmap k = getVar q.kmap k :=
+    fun k hk => getVar_setKey_ne _ _ _ _ hk
+  refine ⟨?_, ?_, ?_⟩
+  · refine DimsInv_shape q.kmap _ hd (hother _ (by decide)) ?_
+    intro k hk
+    rcases hk with rfl | rfl | rfl | rfl <;> rw [hother _ (by decide)] <;> exact sameShape_refl _
+  · refine FramesInv_shape q.kmap _ hf (hother _ (by decide)) (hother _ (by decide)) ?_
+    intro k hk
+    rcases hk with rfl | rfl | rfl | rfl | rfl
+    · rw [getVar_setKey_eq _ _ _ (by rw [h3]; simp), h3]
+      simp [sameShape, hl]
+    all_goals (rw [hother _ (by decide)]; exact sameShape_refl _)
+  · refine WindowsInv_shape q.kmap _ hw (hother _ (by decide)) ?_
+    intro k hk
+    rcases hk with rfl | rfl <;> rw [hother _ (by decide)] <;> exact sameShape_refl _
+
+/-- `InterfileImageHeader::parse` returns for every text -/
+theorem imageHeader_total (text : Str) : parseImageHeader text ≠ .diverges := by
+  unfold parseImageHeader hdrParse
+  simp only
+  have ht := parseWith_total hdrLine imageHeader0 text
+  split
+  · next e => exact absurd e ht
+  · simp
+  · simp
+  · rcases imagePost_cases _ (hdrInv_parse text) with e | e | ⟨e, _⟩ | ⟨_, _, _, _, _, _, _, e⟩ <;> rw [e] <;> simp
+
+/-- **an accepted image header has every table at the announced length**, whatever the order of its keys -/
+theorem imageHeader_tables (text : Str) (p : KP) (h : parseImageHeader text = .ok p) :
+    HdrInv p.kmap ∧
+      ∃ ms isf, getVar p.kmap kMatrixSize = .vInts ms ∧ getVar p.kmap kScaling = .vInts isf ∧ ∀ x ∈ isf, x.length = (planes ms).toNat := by
+  unfold parseImageHeader hdrParse at h
+  simp only at h
+  have hq := hdrInv_parse text
+  split at h
+  · cases h
+  · cases h
+  · cases h
+  · rcases imagePost_cases _ hq with e | e | ⟨e, _⟩ | ⟨ms, isf, isf', e2, e3, el, hall, e⟩
+    · rw [e] at h; cases h
+    · rw [e] at h; cases h
+    · rw [e] at h; cases h
+    · rw [e] at h
+      cases h
+      refine ⟨hdrInv_setScaling _ hq isf isf' e3 el, ms, isf', ?_, ?_, hall⟩
+      · rw [getVar_setKey_ne _ _ _ _ (by decide), e2]
+      · rw [getVar_setKey_eq _ _ _ (by rw [e3]; simp)]
+
+/-- `post_processing` of the image header indexes beyond the end of a table in ONE situation only: `PET_data_type_values` with
+    an index that is not in the list (left at -1 by `PET data type := <unsupported value>`) -/
+theorem imageHeader_oob (text : Str) (h : parseImageHeader text = .oob) :
+    ∃ vals i, getVar (imageHeader0.parseWith hdrLine text).kp.kmap kPetType = .choice vals i ∧ (i < 0 ∨ (vals.length : Int) ≤ i) := by
+  unfold parseImageHeader hdrParse at h
+  simp only at h
+  split at h
+  · cases h
+  · cases h
+  · cases h
+  · rcases imagePost_cases _ (hdrInv_parse text) with e | e | ⟨_, hv⟩ | ⟨_, _, _, _, _, _, _, e⟩
+    · rw [e] at h; cases h
+    · rw [e] at h; cases h
+    · exact hv
+    · rw [e] at h; cases h
+
+/-! ### `MultipleDataSetHeader` -/
+
+def MultiInv (m : List Entry) : Prop :=
+  ∃ (n : Nat) (fs : List Str), getVar m kTotalSets = .int n ∧ getVar m kDataSet = .vAscii fs ∧ fs.length = n
+
+theorem multiLine_inv (p : KP) (line : Str) (p' : KP) (hi : MultiInv p.kmap) (h : multiLine p line = some p') : MultiInv p'.kmap := by
+  unfold multiLine at h
+  cases hpl : p.parseLine line with
+  | none => rw [hpl] at h; cases h
+  | some p1 =>
+    rw [hpl] at h
+    simp only at h
+    obtain ⟨hsh, hne⟩ := parseLine_vars p line p1 hpl
+    obtain ⟨n, fs, e1, e2, l2⟩ := hi
+    unfold multiCallback at h
+    by_cases c : p.keywordOf line = kTotalSets
+    · rw [c] at h hne
+      simp only [beq_self_eq_true, if_true] at h
+      have s1 := hsh kTotalSets; rw [e1] at s1
+      obtain ⟨n', en⟩ := shape_int _ _ s1
+      rw [getInt_of _ _ _ en] at h
+      by_cases hn : n' < 0
+      · simp [hn] at h
+      · simp only [hn, if_false, Option.some.injEq] at h
+        subst h
+        have f2 : getVar p1.kmap kDataSet = .vAscii fs := by rw [hne _ (by decide), e2]
+        refine ⟨n'.toNat, resizeList fs n'.toNat [], ?_, ?_, length_resizeList _ _ _⟩
+        · rw [getVar_resizeKey_ne _ _ _ _ _ (by decide), en, Int.toNat_of_nonneg (by omega)]
+        · rw [getVar_resizeKey_eq _ _ _ _ (by rw [f2]; simp), f2]; rfl
+    · have cb : (p.keywordOf line == kTotalSets) = false := by simpa using c
+      simp only [cb, Bool.false_eq_true, if_false, Option.some.injEq] at h
+      subst h
+      have s2 := hsh kDataSet; rw [e2] at s2
+      obtain ⟨fs', ef, lf⟩ := shape_vAscii _ _ s2
+      exact ⟨n, fs', by rw [hne _ (Ne.symm c), e1], ef, by omega⟩
+
+set_option maxRecDepth 100000 in
+theorem multiInv_init : MultiInv multiHeader0.kmap := ⟨0, [], by decide, by decide, rfl⟩
+
+theorem multiHeader_total (text : Str) : parseMultiHeader text ≠ .diverges := by
+  unfold parseMultiHeader hdrParse
+  simp only
+  have ht := parseWith_total multiLine multiHeader0 text
+  split
+  · next e => exact absurd e ht
+  · simp
+  · simp
+  · unfold multiPost
+    split
+    · simp only
+      split
+      · simp
+      · split <;> simp
+    · simp
+
+/-- **an accepted multiple-data-set header has as many file names as it announces, none of them empty, and its
+    `post_processing` never looks beyond the table** -/
+theorem multiHeader_tables (text : Str) :
+    parseMultiHeader text ≠ .oob ∧
+      ∀ p, parseMultiHeader text = .ok p →
+        ∃ (n : Nat) (fs : List Str), getVar p.kmap kTotalSets = .int n ∧ getVar p.kmap kDataSet = .vAscii fs ∧ fs.length = n ∧
+          ∀ f ∈ fs, f ≠ [] := by
+  have hq := parseWith_inv MultiInv multiLine multiLine_inv multiHeader0 text multiInv_init
+  obtain ⟨n, fs, e1, e2, l2⟩ := hq
+  unfold parseMultiHeader hdrParse
+  simp only
+  split
+  · exact ⟨by simp, fun p h => by cases h⟩
+  · exact ⟨by simp, fun p h => by cases h⟩
+  · exact ⟨by simp, fun p h => by cases h⟩
+  · unfold multiPost
+    simp only [e2, getInt_of _ _ _ e1, Int.toNat_natCast]
+    have hlt : ¬ fs.length < n := by omega
+    rw [if_neg hlt]
+    split
+    · exact ⟨by simp, fun p h => by cases h⟩
+    · next hany =>
+      refine ⟨by simp, fun p h => ?_⟩
+      cases h
+      refine ⟨n, fs, e1, e2, l2, ?_⟩
+      intro f hf hfe
+      apply hany
+      rw [List.take_of_length_le (by omega)]
+      simp only [List.any_eq_true]
+      exact ⟨f, hf, by simp [hfe]⟩
+
 end StirVerif.C17
